@@ -419,8 +419,17 @@ float32_t igris_atof32(const char *str, char **pend)
         // before the 'e'
         if (igris_isdigit(*eptr))
         {
-            unsigned int e = igris_atou32(eptr, 10, &end);
-            if (e > 400) // beyond the range of double in either direction
+            // saturate: 400 is beyond the range of double in either
+            // direction, and e must not wrap around on a long digit string
+            unsigned int e = 0;
+            while (igris_isdigit(*eptr))
+            {
+                if (e <= 400)
+                    e = e * 10 + (unsigned int)(*eptr - '0');
+                eptr++;
+            }
+            end = (char *)eptr;
+            if (e > 400)
                 e = 400;
             while (e--)
                 ret = eminus ? ret / 10.0 : ret * 10.0;
